@@ -106,7 +106,22 @@ func build() (simBin string, rep *detsel.Report) {
 		os.WriteFile(filepath.Join(root, "sim", "go.sum"), src, 0o644)
 	}
 	simBin = filepath.Join(root, "bin", "sim.test")
-	cmd := exec.Command("go1.26.8", "test", "-c", "-vet=off", "-tags", "verif", "-overlay", ov, "-o", simBin, ".")
+	args := []string{"test", "-c", "-vet=off", "-tags", "verif", "-overlay", ov, "-o", simBin}
+	if repo != "/repo" {
+		// a repository elsewhere (VERIF_REPO): same module file with the replace directive redirected
+		mod, err := os.ReadFile(filepath.Join(root, "sim", "go.mod"))
+		if err != nil {
+			die(2, "BUILD-TROUBLE %v", err)
+		}
+		alt := filepath.Join(root, "build", "go.alt.mod")
+		os.WriteFile(alt, bytes.ReplaceAll(mod, []byte("=> /repo"), []byte("=> "+repo)), 0o644)
+		if sum, err := os.ReadFile(filepath.Join(repo, "go.sum")); err == nil {
+			os.WriteFile(filepath.Join(root, "build", "go.alt.sum"), sum, 0o644)
+		}
+		args = append(args, "-modfile="+alt)
+	}
+	args = append(args, ".")
+	cmd := exec.Command("go1.26.8", args...)
 	cmd.Dir = filepath.Join(root, "sim")
 	cmd.Env = goEnv()
 	out, err := cmd.CombinedOutput()
